@@ -33,6 +33,11 @@ const (
 	FaultCancel      = "cancel"
 	FaultSlowRead    = "slow_read"
 	FaultOpenLatency = "open_latency"
+	// FaultCloseError: Close of the reader reports an error (the reader counts as closed).
+	FaultCloseError = "close_error"
+	// FaultInventoryChange: from the K-th ContainerList call on, the container is
+	// reported with another state and name (it was restarted/renamed meanwhile).
+	FaultInventoryChange = "inventory_change"
 )
 
 // Fault is one injected fault.
